@@ -686,6 +686,34 @@ def gen(ctx):
     for i in range(20 if quick else 300):
         cases.append(gen_history(rng, rng.choice([10, 20, 30]), caps=(1, 2, 2, 3),
                                  weights=dict(put=40, remove=20, step=25, deliver=8, settle=2), tag="relist-directed"))
+    # keys LONGER than 32 bytes that share exactly their first 32 bytes (34, 38, 100, 127 and 128 bytes) and differ
+    # after: both written, the 1-3 entry cache churned, both read, one removed, the other read again
+    for i in range(30 if quick else 400):
+        base32 = bytes(rng.getrandbits(8) for _ in range(32))
+        lens = rng.sample([34, 34, 38, 38, 100, 127, 128, 33], 3)
+        keys = []
+        for ln in lens:
+            k = base32 + bytes(rng.getrandbits(8) for _ in range(ln - 32))
+            if k not in keys:
+                keys.append(k)
+        keys += [base32] + gen_keys(rng, 2, False)
+        nk = len(keys)
+        vals = []
+        while len(vals) < 5:
+            x = bytes([0x91, rng.choice(KINDS_STORED)]) + bytes(rng.getrandbits(8) for _ in range(rng.choice([3, 9, 30])))
+            if x not in vals:
+                vals.append(x)
+        ops = []
+        for k in rng.sample(range(nk), nk):
+            v = rng.randrange(5)
+            ops.append({"op": "put", "k": k, "v": v, "t": type_for(rng, vals[v], False)})
+            ops += rng.choice([[{"op": "settle"}], [{"op": "step"}] * rng.randrange(0, 4), []])
+        ops.append({"op": "settle"})
+        ops += [{"op": "get", "k": k} for k in range(nk)]
+        gone = rng.randrange(0, min(3, nk))
+        ops += [{"op": "remove", "k": gone}, {"op": "settle"}] + [{"op": "get", "k": k} for k in range(nk)]
+        ops += [{"op": "put", "k": gone, "v": rng.randrange(5), "t": 2}, {"op": "settle"}]
+        cases.append(mk_case(rng, keys, vals, ops, 16384, rng.choice([1, 2, 3]), "shared-32-byte-prefix"))
     # validated puts around and above the size limit of the UNVERIFIED put(): put_verified has no size gate and
     # neither has the disk path of get, so every such record must be readable after it left the 1-2 entry cache
     for i in range(24 if quick else 400):
